@@ -36,7 +36,7 @@ static int ccm_open(const uint8_t *nonce, size_t nl, const uint8_t *aad, size_t 
 static int NAME(const uint8_t *nonce, size_t nl, const uint8_t *aad, size_t al, const uint8_t *ct, size_t cl, const uint8_t *tag, size_t tl, size_t cut, uint8_t *pt, size_t *pl) { \
 	(void)tag; CTXT c; size_t ol = 0; *pl = 0; uint8_t *a = dupb(aad, al); int r = INIT; free(a); if (r != 1) return r; \
 	size_t parts[2][2] = { { 0, cut }, { cut, cl - cut } }; \
-	for (int i = 0; i < 2; i++) { if (!parts[i][1]) continue; uint8_t *ib = dupb(ct + parts[i][0], parts[i][1]); ol = 0; r = UPD(&c, ib, parts[i][1], pt + *pl, &ol); free(ib); if (r != 1) return r; *pl += ol; } \
+	for (int i = 0; i < 2; i++) { if (!parts[i][1]) continue; uint8_t *ib = dupb(ct + parts[i][0], parts[i][1]); ol = (size_t)-7; /* sentinel: a successful update must report how much it wrote */ r = UPD(&c, ib, parts[i][1], pt + *pl, &ol); free(ib); if (r != 1) return r; if (ol == (size_t)-7) { vh_viol("C05:" #UPD ":returns-success-without-setting-outlen", "\"chunk_len\":%zu,\"stream_len\":%zu", parts[i][1], cl); ol = 0; } *pl += ol; } \
 	ol = 0; r = FIN(&c, pt + *pl, &ol); if (r == 1) *pl += ol; return r; }
 STREAM_OPEN(sgcm_open, SM4_GCM_CTX, sm4_gcm_decrypt_init(&c, KEY, 16, nonce, nl, a, al, tl), sm4_gcm_decrypt_update, sm4_gcm_decrypt_finish)
 STREAM_OPEN(cbch_open, SM4_CBC_SM3_HMAC_CTX, sm4_cbc_sm3_hmac_decrypt_init(&c, KEY, nonce, a, al), sm4_cbc_sm3_hmac_decrypt_update, sm4_cbc_sm3_hmac_decrypt_finish)
@@ -115,5 +115,45 @@ static void body_bigaad(void) {
 		vh_sample("{\"block\":\"big-aad\",\"scheme\":\"%s\",\"aadlen\":%zu,\"msglen\":%zu}", s->name, al, n);
 	}
 }
-static void body_all(void) { body(); body_bigaad(); }
+/* the library's own command-line front ends for the three streaming AEAD schemes (tools/sm4_gcm.c, sm4_cbc_sm3_hmac.c, sm4_ctr_sm3_hmac.c, compiled into this
+   driver from the tree under test): they read the input in 4096-octet pieces, so file sizes around the multiples of 4096 are the boundaries;
+   decrypt(encrypt(file)) must succeed and give the file back, and a flipped bit anywhere in the sealed file must make decryption fail */
+#include <unistd.h>
+#include <sys/stat.h>
+#define usage c05_usage_gcm
+#define options c05_options_gcm
+#include "../tools/sm4_gcm.c"
+#undef usage
+#undef options
+#define usage c05_usage_cbch
+#define options c05_options_cbch
+#include "../tools/sm4_cbc_sm3_hmac.c"
+#undef usage
+#undef options
+#define usage c05_usage_ctrh
+#define options c05_options_ctrh
+#include "../tools/sm4_ctr_sm3_hmac.c"
+#undef usage
+#undef options
+static int run_tool(int which, int enc, const char *in, const char *out) { static char K16[] = "0123456789abcdef0123456789abcdef", K48[] = "0123456789abcdef0123456789abcdef0123456789abcdef0123456789abcdef0123456789abcdef0123456789abcdef", IV12[] = "000102030405060708090a0b", IV16[] = "000102030405060708090a0b0c0d0e0f";
+	char *argv[16]; int n = 0; argv[n++] = (char *)"tool"; argv[n++] = (char *)(enc ? "-encrypt" : "-decrypt"); argv[n++] = (char *)"-key"; argv[n++] = which ? K48 : K16; argv[n++] = (char *)"-iv"; argv[n++] = which ? IV16 : IV12; argv[n++] = (char *)"-aad"; argv[n++] = (char *)"header"; argv[n++] = (char *)"-in"; argv[n++] = (char *)in; argv[n++] = (char *)"-out"; argv[n++] = (char *)out; argv[n] = NULL;
+	return which == 0 ? sm4_gcm_main(n, argv) : which == 1 ? sm4_cbc_sm3_hmac_main(n, argv) : sm4_ctr_sm3_hmac_main(n, argv); }
+static long slurp(const char *path, uint8_t *b, size_t cap) { FILE *f = fopen(path, "rb"); if (!f) return -1; size_t n = fread(b, 1, cap, f); fclose(f); return (long)n; }
+static void spit(const char *path, const uint8_t *b, size_t n) { FILE *f = fopen(path, "wb"); if (!f) vh_harness_error("cannot write %s", path); if (n) fwrite(b, 1, n, f); fclose(f); }
+static void body_tools(void) {
+	if (!vh_block_begin("command-line-tools")) return; static const size_t FL[] = { 0, 1, 4079, 4080, 4081, 4095, 4096, 4097, 4111, 4112, 4113, 8191, 8192, 8193, 12289 }; static const char *TN[] = { "sm4_gcm", "sm4_cbc_sm3_hmac", "sm4_ctr_sm3_hmac" };
+	char dir[64] = "/tmp/c05toolsXXXXXX"; if (!mkdtemp(dir)) vh_harness_error("mkdtemp"); char fi[96], fe[96], fd[96]; snprintf(fi, sizeof fi, "%s/in", dir); snprintf(fe, sizeof fe, "%s/sealed", dir); snprintf(fd, sizeof fd, "%s/opened", dir);
+	static uint8_t data[12400], back[12600], sealed[12600]; for (size_t i = 0; i < sizeof data; i++) data[i] = (uint8_t)(i * 131 + (i >> 8));
+	FILE *se = stderr; (void)se; int nfl = vh_thorough ? 15 : 15;
+	for (int w = 0; w < 3; w++) for (int li = 0; li < nfl; li++) { if (!vh_next()) continue; size_t n = FL[li]; char key[160]; spit(fi, data, n); unlink(fe); unlink(fd);
+		int r = run_tool(w, 1, fi, fe); size_t kk[2] = { (size_t)w, n }; vh_eval(vh_hash(kk, sizeof kk, 41)); if (r != 0) { snprintf(key, sizeof key, "C05:tools:%s:encrypt-failed", TN[w]); vh_viol(key, "\"file_len\":%zu,\"ret\":%d", n, r); continue; }
+		r = run_tool(w, 0, fe, fd); long bl = slurp(fd, back, sizeof back); vh_eval(vh_hash(kk, sizeof kk, 42));
+		if (r != 0 || bl != (long)n || memcmp(back, data, n)) { snprintf(key, sizeof key, "C05:tools:%s:own-output-does-not-decrypt", TN[w]); vh_viol(key, "\"file_len\":%zu,\"ret\":%d,\"opened_len\":%ld", n, r, bl); continue; }
+		/* one flipped bit at the start, around every 4096 boundary of the sealed file and at its end */
+		long sl = slurp(fe, sealed, sizeof sealed); if (sl <= 0) continue; size_t pos[8] = { 0, 4095, 4096, 8191, 8192, (size_t)sl / 2, (size_t)sl - 17, (size_t)sl - 1 };
+		for (int pi = 0; pi < 8; pi++) { if (pos[pi] >= (size_t)sl) continue; sealed[pos[pi]] ^= 0x10; spit(fe, sealed, (size_t)sl); sealed[pos[pi]] ^= 0x10; unlink(fd); r = run_tool(w, 0, fe, fd); vh_eval(vh_hash(kk, sizeof kk, 50 + pi)); if (r == 0) { snprintf(key, sizeof key, "C05:tools:%s:altered-file-decrypts-with-success", TN[w]); vh_viol(key, "\"file_len\":%zu,\"byte\":%zu", n, pos[pi]); } }
+		vh_sample("{\"block\":\"command-line-tools\",\"tool\":\"%s\",\"file_len\":%zu,\"sealed_len\":%ld}", TN[w], n, sl); }
+	unlink(fi); unlink(fe); unlink(fd); rmdir(dir);
+}
+static void body_all(void) { body(); body_bigaad(); body_tools(); }
 int main(int argc, char **argv) { vh_init(argc, argv); fill(); vh_guarded("C05", body_all, 60); return vh_finish(); }
